@@ -188,17 +188,27 @@ def audit(ctx, rng, count, nsett):
         if t % 8 == 7:
             # two ADJACENT negative terms between positive ones (each lies in the other's full cover): 1 - a e^x - b e^{2x} + c e^{3x}
             f = rm.sig_leaf([[F(0)], [F(1)], [F(2)], [F(3)]], [F(rng.choice([1, 2, 3])), F(-rng.choice([1, 2])), F(-rng.choice([1, 2])), F(rng.choice([1, 2, 4]))])
+        elif t % 8 == 3:
+            # two negative terms inside the triangle of the positive ones, in the plane (each lies in the other's full cover)
+            f = rm.sig_leaf([[F(0), F(0)], [F(2), F(0)], [F(0), F(2)], [F(1), F(1)], [F(1), F(1, 2)], [F(1, 2), F(1)]],
+                            [F(rng.choice([1, 2])), F(rng.choice([1, 2])), F(rng.choice([1, 2])), F(rng.choice([1, 2])),
+                             F(-1, rng.choice([1, 2])), F(-1, rng.choice([1, 2]))])
         else:
             f = rm.gen_sig(rng, m=rng.randint(3, 5))
+        two_neg = t % 8 in (3, 7)
         n = f['n']
         box = None
-        if rng.random() < 0.45:
+        if rng.random() < 0.45 and not (t % 8 == 3):
             box = rm.gen_box(rng, n) if rng.random() < 0.6 else {'lin': [[[common.frac_str(F(rng.randint(-1, 1))) for _ in range(n)], '0']]}
             if 'lin' in box and all(F(a) == 0 for a in box['lin'][0][0]):
                 box['lin'][0][0][0] = '1'
         case = {'f': f, 'box': box}
-        form = rng.choice(['primal', 'dual'])
+        form = rng.choice(['primal', 'dual'] + (['primal', 'primal'] if two_neg else []))
         setts = alls if nsett >= 32 else [sm.DEFAULTS] + rng.sample(alls, nsett - 1)
+        if two_neg and nsett < 32:
+            # the options that read the covers of OTHER terms: always part of the sample for these instances
+            setts = [sm.DEFAULTS, dict(sm.DEFAULTS, sum_age_force_equality=True), dict(sm.DEFAULTS, kernel_basis=True),
+                     dict(sm.DEFAULTS, sum_age_force_equality=True, presolve_trivial_age_cones=True)] + setts[1:nsett - 3]
         base_s = dict(sm.DEFAULTS)
         base_s['heuristic_reduction'] = False          # the reference: no heuristic, no presolve
         ref = value_under(case, form, base_s, 'full' if box is None else 'auto')
